@@ -10,6 +10,7 @@ import (
 	"go/token"
 	"go/types"
 	"sort"
+	"strings"
 
 	"golang.org/x/tools/go/ssa"
 )
@@ -444,6 +445,13 @@ func (w *World) resolveLoad(v ssa.Value) ssa.Value {
 			}
 		}
 		if al == nil || w.escapes(al) {
+			// a write-once field of a local context object (writeonce.go)
+			if loc := w.locKey(u.X); strings.HasPrefix(loc, "alloc:") {
+				if wo := w.woStore(loc); wo != nil && wo.suffix == "" && (u.Parent() != wo.st.Parent() || instrDominates(wo.st, u)) {
+					v = wo.st.Val
+					continue
+				}
+			}
 			return v
 		}
 		ss := w.stores[w.locKey(u.X)]
